@@ -40,22 +40,22 @@ def Sess.read (s : Sess) : Bool × Sess :=
   | some (.err _) => (false, { s with consumed := s.consumed + 1, failed := true })
   | none => (false, { s with failed := true })
 
+/-- one step of `pcp_sendfile`: unless an earlier step has failed (`goto fail`), send `bs` and read a reply -/
+def sendStage (o : Opts) (r : Bool × Sess) (bs : Str) : Bool × Sess :=
+  if r.1 then (r.2.feed o bs).read else r
+
 /-- `pcp_sendfile` for one list element that is not the sentinel; returns whether it succeeded -/
 def sendfileOne (so : SOpts) (o : Opts) (s : Sess) (path : Str) (user isDir : Bool) (m t a : Nat) (d : Str) :
     Bool × Sess :=
   let outf := if so.reverse && user then path ++ cDot :: so.host else path
   let name := xbasename outf
-  let afterT : Bool × Sess :=
+  let r1 : Bool × Sess :=
     if so.preserve then
-      (s.feed o (tRecord (t / USEC) (if so.subsec then t % USEC else 0) (a / USEC)
-        (if so.subsec then a % USEC else 0))).read
+      sendStage o (true, s) (tRecord (t / USEC) (if so.subsec then t % USEC else 0) (a / USEC)
+        (if so.subsec then a % USEC else 0))
     else (true, s)
-  if !afterT.1 then (false, afterT.2)
-  else
-    let afterC := (afterT.2.feed o (if isDir then dRecord m name else cRecord m d.length name)).read
-    if !afterC.1 then (false, afterC.2)
-    else if isDir then (true, afterC.2)
-    else (afterC.2.feed o (d ++ [0])).read
+  if isDir then sendStage o r1 (dRecord m name)
+  else sendStage o (sendStage o r1 (cRecord m d.length name)) (d ++ [0])
 
 structure COpts where
   skipRefused : Bool     -- model variant: the repaired client (repair of F11-DIRFAIL-SCATTER)
